@@ -10,7 +10,7 @@ _LEDGER_RULE = (
     "in-crate harness (child module of `app`) drives the real App::begin_block / CheckedTransaction::new / "
     "App::execute_transaction / Ics20Transfer::{recv,timeout,acknowledge}_packet_execute / App::end_block + commit on a Fixture "
     "with 9 funded key-holding accounts, 2 key-less recipients, 4 assets (native fee asset, IBC-prefixed fee asset, non-fee "
-    "native asset, second IBC asset), 2 open IBC channels, in two variants (Aspen+Blackburn applied / legacy pre-Aspen). "
+    "native asset, second IBC asset), 2 open IBC channels, in three variants (Aspen+Blackburn applied / legacy pre-Aspen / crossing both upgrades at heights 4 and 6). "
     "Per session: prologue creating 2 bridge accounts + escrow, then 16 (thorough 40) blocks of 1-7 ops; 12 (thorough 60) sessions. "
     "Ops: real signed transactions of 1-5 actions over 18 action kinds (currency-pair and market changes, transfer, rollup data, bridge lock/unlock/transfer, init "
     "bridge, bridge sudo change, sudo / IBC sudo change, relayer add/remove, fee change, fee asset add/remove, validator update, "
